@@ -134,6 +134,7 @@ func (s *scte35) parseTable(data []byte) error {
 			s.commandInfo = cmd
 		case SpliceNull:
 			s.commandInfo = &spliceNull{}
+			s.pts = ptsAdjustment // no command time: keep pts_adjustment so that re-encoding preserves it
 		default:
 			return gots.ErrSCTE35UnsupportedSpliceCommand
 		}
